@@ -86,7 +86,8 @@ LEVEL_TEXT["C11"] = ("Seeded sessions over tree states on several topologies: ad
                      "tree compress with truncation is judged by Eckart-Young bounds over all edges (C05); dump/load round trip (C14).")
 LEVEL_TEXT["C12"] = ("All four tree schemes, real and imaginary time, multi-step histories (evolved states are evolved again, after arithmetic and gauge moves), judged against the dense propagator: "
                      "P&C-RK4 by 6x^5/5!, VMF by the ODE tolerances + regularisation, projector splitting by 1e-8 where the integrator is provably exact (bonds exactly at the sector caps and an exactness centre, "
-                     "simlab/ref/exactness.py) and by 0.25 x^3 where only the tangent space is complete; one-site PS conserves norm and energy at any bond dimension; sector conservation by the C06 monitor; "
+                     "simlab/ref/exactness.py) and by 0.25 x^3 where only the tangent space is complete, there also by an order probe (one-step errors for tau, tau/2, tau/4 from the same input must fall by about 8 per halving; "
+                     "30% of the worlds are rejection-sampled to contain a branching tree and a sector away from the exactness condition); one-site PS conserves norm and energy at any bond dimension; sector conservation by the C06 monitor; "
                      "the input state must be left untouched (C13); lock-step runs of the chain implementation and the linear tree of from_mps for 1-3 steps with all schemes.")
 for _p in ("C02", "C11", "C12"):
     LEVEL_NOTE[_p] = _TREE_NOTE
